@@ -330,3 +330,56 @@ def run(prog, cg, accepted=None):
     b, nloops = prog_b(prog, cg, an)
     d = prog_d(prog, an)
     return RuleResult('R-PROG', a + b + d, 850, {'decoders': ndec, 'range_loops': nloops})
+
+
+TILE_ACCEPTED = {('disasm/webasm.cpp', 'disasm_range_webasm'):
+                 'the second advance skips the br_table operand list that print_table() has just printed and returns the length of'}
+
+
+def tile_once(prog, floor=60):
+    """TILE-ONCE (C08): a range printer / listing formatter that advances its address by the decoder's length
+    (`start += count`) advances it nowhere else in the loop: every other store to the address variable inside the loop makes
+    some instruction consume more (or fewer) bytes than the decoder reported, so the following bytes are skipped or decoded
+    twice."""
+    obs = []
+    for fn in sorted(prog.functions(lambda f: f.file.startswith('disasm/') and f.name.startswith(('disasm_range_', 'list_output_')) and f.blocks),
+                     key=lambda f: (f.file, f.line)):
+        ps = [p for p in fn.params() if p.get('n') == 'start']
+        if not ps:
+            continue
+        d = ps[0]['d']
+        k = 0
+        for h, body in sorted(natural_loops(fn).items()):
+            cn = fn.nodes.get(fn.blocks[h].get('cond')) if 'cond' in fn.blocks[h] else None
+            if cn is None or not any(x['k'] == 'DeclRefExpr' and x.get('d') == d for x in walk(cn)):
+                continue
+            sts = []
+            for n in fn.nodes.values():
+                w = fn.where.get(n['i'])
+                if w is None or w[0] not in body:
+                    continue
+                if n['k'] in ('BinaryOperator', 'CompoundAssignOperator') and n.get('op', '').endswith('=') and \
+                        n['op'] not in ('==', '!=', '<=', '>=') and strip(kids(n)[0]).get('d') == d:
+                    sts.append(n)
+                elif n['k'] == 'UnaryOperator' and n.get('op') in ('++', '--') and strip(kids(n)[0]).get('d') == d:
+                    sts.append(n)
+            bycount = [n for n in sts if any(x['k'] == 'DeclRefExpr' and x.get('n') == 'count' for x in walk(n))]
+            if not bycount:
+                continue
+            k += 1
+            extra = [n for n in sts if n not in bycount]
+            construct = 'range-loop#%d' % k
+            if not extra:
+                obs.append(Ob('TILE-ONCE', fn.file, bycount[0]['l'], fn.q, construct, DISCHARGED, '',
+                              '`%s` is the only store to the address in the loop' % show(bycount[0]), False))
+            elif (fn.file, fn.q) in TILE_ACCEPTED:
+                obs.append(Ob('TILE-ONCE', fn.file, extra[0]['l'], fn.q, construct, DISCHARGED, '',
+                              'accepted: ' + TILE_ACCEPTED[(fn.file, fn.q)], False))
+            else:
+                obs.append(Ob('TILE-ONCE', fn.file, extra[0]['l'], fn.q, construct, VIOLATED,
+                              'the loop advances by the decoder length (`%s`, line %d) and also by `%s` (line %d): an instruction '
+                              'then consumes more bytes than the decoder reported and the bytes behind it are never decoded' % (
+                                  show(bycount[0]), bycount[0]['l'], show(extra[0]), extra[0]['l'])))
+    if len(obs) < floor:
+        raise AnalysisBroken('TILE-ONCE: only %d range loops advancing by the decoder length' % len(obs))
+    return RuleResult('TILE-ONCE', obs, floor, {})
